@@ -70,6 +70,19 @@ pub fn run_param(case: &Value) -> Value {
                         let r = add_multi(&mut b, o["kind"].as_str().unwrap(), vus(&o["ts"]), vus(&o["cs"]), &hl);
                         obs.push(json!({"k": "res", "ok": r.is_ok(), "e": r.err().map(|e| format!("{:?}", e))}));
                     }
+                    // a Gate::Parametric built directly from the public enum variant, with SEVERAL targets holding one parameter
+                    "add_raw" => {
+                        use quant_iron::parametric_gate::*;
+                        use quant_iron::components::gate::Gate;
+                        let h = &hs[vu(&o["h"])];
+                        let pg: Box<dyn ParametricGate> = match o["kind"].as_str().unwrap() {
+                            "RX" => Box::new(ParametricRx { parameter: h.p1() }), "RY" => Box::new(ParametricRy { parameter: h.p1() }),
+                            "RZ" => Box::new(ParametricRz { parameter: h.p1() }), "P" => Box::new(ParametricP { parameter: h.p1() }),
+                            "RyPhase" => Box::new(ParametricRyPhase { parameter: h.p2() }), _ => Box::new(ParametricRyPhaseDag { parameter: h.p2() }),
+                        };
+                        b.add_gate(Gate::Parametric(pg, vus(&o["ts"]), vus(&o["cs"])));
+                        obs.push(json!({"k": "res", "ok": true}));
+                    }
                     "build" => { let r = b.build(); obs.push(json!({"k": "res", "ok": r.is_ok()})); if let Ok(c) = r { circs.push(c); } else { circs.push(Circuit::new(n)); } }
                     "build_final" => { let r = b.build_final(); obs.push(json!({"k": "res", "ok": r.is_ok()})); if let Ok(c) = r { circs.push(c); } else { circs.push(Circuit::new(n)); } }
                     "exec" => obs.push({ let mut s = state_json(circs[vu(&o["c"])].execute(&probe)); s["k"] = json!("state"); s }),
